@@ -67,8 +67,11 @@ globalThis.p = function () {
 };
 
 async function drain() {
+  // a dynamic import of a chunk on disk needs real I/O turns: wait with short timers until the trace has
+  // been quiet for a while
   let last = -1, idle = 0;
-  for (let i = 0; i < 200 && idle < 4; i++) {
+  for (let i = 0; i < 400 && idle < 6; i++) {
+    await new Promise((r) => setTimeout(r, 2));
     await new Promise((r) => setImmediate(r));
     if (trace.length === last) idle++; else idle = 0;
     last = trace.length;
